@@ -1,21 +1,54 @@
 """C01 check configuration (see lib/runner.py for the meaning of the keys)."""
+import glob
+import json
+import os
+
+
+def _stats():
+    """non-fatal statistics for the evidence: on how many cases of this run the implementation agrees EXACTLY with the
+    model (status, gRPC code, hit count: "C12 drift" otherwise) and on how many the property predicate was vacuous because
+    a hypothesis of the theorems does not hold for the generated configuration (Run/Eval_C01.v check_stats)"""
+    import vf
+    out = {}
+    try:
+        terms, streams = [], []
+        for path in sorted(glob.glob(os.path.join(vf.OUT, "C01", "obs_*.jsonl"))):
+            if path.endswith("_esc.jsonl"):
+                continue
+            for o in vf.read_obs(path):
+                terms.append(o["coq"])
+                streams.append(os.path.basename(path)[4:-6])
+        if not terms:
+            return out
+        rows, shards, ok, log = vf.eval_cases("C01_stats", "Run.Eval_C01", "check_stats", terms, shard_size=400)
+        if ok != shards:
+            return {"stats_error": log[-400:]}
+        drift = sum(1 for i in range(len(terms)) if i in rows and not rows[i][0])
+        vac = sum(1 for i in range(len(terms)) if i in rows and not rows[i][1])
+        out = {"exact_status_drift_cases": drift, "property_vacuous_cases": vac, "stats_over_cases": len(terms),
+               "property_vacuous_share": round(vac / float(len(terms)), 3)}
+    except Exception as exc:  # statistics must never break the check
+        out = {"stats_error": repr(exc)[:300]}
+    return out
+
 
 P = {
     "id": "C01",
     "claimed": True,
     "coq_targets": ["Properties/C01.vo", "Run/Eval_C01.vo"],
     "theorems_module": "Properties.C01",
-    "theorems": ["C01_positive_only_if", "C01_failed_never_reaches_upstream", "C01_answer_dichotomy", "C01_error_handler_cannot_rescue",
-                 "C01_silent_handler_would_rescue", "C01_panic_is_non_success", "C01_success_is_positive",
-                 "C01_succeeded_b_spec", "C01_check_sound", "C01_no_authenticator_is_positive", "C01_success_redirect_is_positive", "C01_loader_redirect_never_success",
-                 "C01_success_redirect_rule_not_loadable",
-                 "C01_nonvacuous"],
+    "theorems": ["C01_positive_only_if", "C01_failed_never_reaches_upstream", "C01_answer_dichotomy",
+                 "C01_error_pipeline_never_forgets", "C01_error_handler_cannot_rescue", "C01_real_mechanisms_record",
+                 "C01_reached_panic_is_non_success", "C01_success_is_positive", "C01_loader_redirect_never_success",
+                 "C01_silent_handler_would_rescue", "C01_no_authenticator_is_positive", "C01_success_redirect_is_positive",
+                 "C01_continue_step_panic_is_reached", "C01_continue_step_condition_error_is_swallowed", "C01_nonvacuous"],
     "streams": [{
         "name": "pipeline", "pkg": "./internal/rules", "test": "TestVerifC01",
         "overlay": {
             "internal/rules/zz_verif_c01_test.go": "c01/c01_test.go",
             "internal/zzverif/stacks/stacks.go": "stacks/stacks.go",
             "internal/zzverif/stacks/errtree.go": "stacks/errtree.go",
+            "internal/zzverif/stacks/request.go": "stacks/request.go",
             "internal/handler/decision/zz_verif_export.go": "export/decision_export.go",
             "internal/handler/proxy/zz_verif_export.go": "export/proxy_export.go",
             "internal/handler/envoyextauth/grpcv3/zz_verif_export.go": "export/grpcv3_export.go",
@@ -24,11 +57,29 @@ P = {
         "eval_module": "Run.Eval_C01", "check_term": "check",
         "n_quick": 1200, "n_thorough": 30000, "findings": {}, "shard": 200,
     }, {
+        # the same driver, race detector on: after the sequential pass every group's requests are repeated concurrently
+        # (4 rounds x requests x 3 entry points through the SAME rule instance, executor and stacks) and must get the very
+        # same answers and the same total of upstream hits
+        "name": "concurrent", "pkg": "./internal/rules", "test": "TestVerifC01",
+        "overlay": {
+            "internal/rules/zz_verif_c01_test.go": "c01/c01_test.go",
+            "internal/zzverif/stacks/stacks.go": "stacks/stacks.go",
+            "internal/zzverif/stacks/errtree.go": "stacks/errtree.go",
+            "internal/zzverif/stacks/request.go": "stacks/request.go",
+            "internal/handler/decision/zz_verif_export.go": "export/decision_export.go",
+            "internal/handler/proxy/zz_verif_export.go": "export/proxy_export.go",
+            "internal/handler/envoyextauth/grpcv3/zz_verif_export.go": "export/grpcv3_export.go",
+            "internal/rules/mechanisms/cellib/zz_verif_export.go": "export/cellib_export.go",
+        },
+        "eval_module": "Run.Eval_C01", "check_term": "check", "env": {"VERIF_C01_CONCURRENT": "1", "VERIF_C01_SEED_SHIFT": "77"},
+        "race": True, "n_quick": 150, "n_thorough": 3000, "findings": {}, "shard": 200, "escalate": False,
+    }, {
         "name": "assembled", "pkg": "./internal/zzverif/c01asm", "test": "TestVerifC01Assembled",
         "overlay": {
             "internal/zzverif/c01asm/c01asm_test.go": "c01asm/c01asm_test.go",
             "internal/zzverif/stacks/stacks.go": "stacks/stacks.go",
             "internal/zzverif/stacks/errtree.go": "stacks/errtree.go",
+            "internal/zzverif/stacks/request.go": "stacks/request.go",
             "internal/handler/decision/zz_verif_export.go": "export/decision_export.go",
             "internal/handler/proxy/zz_verif_export.go": "export/proxy_export.go",
             "internal/handler/envoyextauth/grpcv3/zz_verif_export.go": "export/grpcv3_export.go",
@@ -36,6 +87,7 @@ P = {
         "eval_module": "Run.Eval_C01", "check_term": "check",
         "n_quick": 240, "n_thorough": 4000, "findings": {}, "shard": 200,
     }],
+    "extra_coverage": _stats,
     "rule": "service configuration (six status overrides incl. 0, valid 3xx-9xx, rare 1xx/2xx and invalid codes; accepted code unset / 2xx / "
             "non-2xx / invalid) x lookup (matching rule, with or without an always-succeeding default rule behind it | default rule | no "
             "rule) x rule (1-4 authenticators, rarely 0; 0-6 authorizers/contextualizers; 0-3 finalizers; 0-4 error handlers; forward_to "
